@@ -220,8 +220,8 @@ class Runner:
         if cur:
             chunks.append(cur)
         jobs_list = [(i, ch, prof) for prof in plan.macro_profiles for i, ch in enumerate(chunks)]
-        conc = min(len(jobs_list), 4 if self.tier == "quick" else 6) or 1
-        jobs_each = max(2, E.NCPU // conc)
+        conc = min(len(jobs_list), 6) or 1
+        jobs_each = max(2, -(-E.NCPU // conc))
         log(f"[{pid}] {len(all_units)} units, {sum(len(u.harnesses) for u in all_units)} harnesses, {len(chunks)} crate(s) x {len(plan.macro_profiles)} macro profile(s), {conc} concurrent, -j {jobs_each}")
         outcomes, rejected_all, herr_all = [], {}, {}
         crates = {}
